@@ -30,9 +30,6 @@ ViewMatches(v, c) ==
                    /\ v.funds = FundsText(c.funds)
 MethodOfOp(o) == IF o.op = "instantiate" THEN InstM ELSE IF o.op = "migrate" THEN MigM ELSE PM(o).m
 OkAttrs(m) == << <<"h", m.name>>, <<"code", ToString(m.code)>> >>
-QRespJson(m) ==
-    [t |-> "o", f |-> << [k |-> "h", v |-> [t |-> "s", v |-> m.name]], [k |-> "code", v |-> [t |-> "n", v |-> ToString(m.code)]] >>
-                      \o (IF m.ret = "QRespB" THEN << [k |-> "extra", v |-> [t |-> "b", v |-> "true"]] >> ELSE <<>>)]
 ResMatches(r, o) ==      \* what the specification says the caller gets
     IF o.op = "store" THEN r.ok
     ELSE LET m == MethodOfOp(o) IN
